@@ -148,9 +148,10 @@ func init() {
 		t.sepArg(r)
 		r.Capitalize = spg.CapScheme(t.str())
 		t.budget()
-		install(t.source())
+		src := t.source()
+		install(cloneSource(src))
 		p, err := r.Generate()
-		return pre + showPassword(p, err)
+		return held(pre+showPassword(p, err), p, src, func() { _, _ = r.Generate() })
 	}
 	// wlentropy <words> <length> <sep> <cap> <reps>: Entropy() of reps fresh constructions from shuffled input, 3 calls each
 	families["wlentropy"] = func(t *toks) string {
